@@ -1093,8 +1093,14 @@ def nontrivial(hist):
 
 
 def random_part(ctx, chk, ndesigns, ncyc_range, compiled_every, post_every, verilog_every):
+    """in chunks, so that the traces of at most 100 designs x ~15 back-ends are alive at a time"""
+    for lo in range(0, ndesigns, 100):
+        _random_chunk(ctx, chk, range(lo, min(ndesigns, lo + 100)), ncyc_range, compiled_every, post_every, verilog_every)
+
+
+def _random_chunk(ctx, chk, indices, ncyc_range, compiled_every, post_every, verilog_every):
     cases = []
-    for di in range(ndesigns):
+    for di in indices:
         rng = ctx.sub_rng('design', di)
         cross = (di % 3 == 1)
         if cross:
